@@ -193,6 +193,7 @@ type ctx struct {
 	allocated     []term
 	allocFrom     int
 	lastStore     map[string][2]term
+	lastStoreOf   map[string]string // fresh value symbol -> array version it was stored into (setter recognition)
 	siteHit       map[string]bool
 	cbInvHit      map[string]bool
 	siteFr        *frame // frame and block of the call being executed in the verified function (or a closure of it)
@@ -598,6 +599,7 @@ func (x *ctx) writeLeafHeap(st *state, l *loc, key string, v term) {
 		x.lastStore = map[string][2]term{}
 	}
 	x.lastStore[st.heap[x.akey(key)]] = [2]term{l.base, v}
+	x.lastStoreOf[v.s] = st.heap[x.akey(key)]
 }
 
 func (x *ctx) readHeap(st *state, l *loc, key string, t types.Type) val {
@@ -1367,6 +1369,9 @@ func (x *ctx) run(st *state, fr *frame, b *ssa.BasicBlock, idx int, prev *ssa.Ba
 					continue
 				}
 				nfr.regs[in] = o.ret
+				if x.spec == 0 && x.con != nil && len(x.con.SiteAssumes) > 0 && (fr.top || (fr.fn.Parent() != nil && closureOf(fr.fn, x.fn))) {
+					x.siteAssumes(o.st, nfr, b, in)
+				}
 				res = append(res, x.run(o.st, nfr, b, i+1, prev)...)
 			}
 			return res
@@ -1393,6 +1398,9 @@ func (x *ctx) run(st *state, fr *frame, b *ssa.BasicBlock, idx int, prev *ssa.Ba
 						break
 					}
 				}
+			}
+			if live > 1 && os.Getenv("GOVC_TRACE_IF") != "" && x.spec == 0 {
+				debugf("IF %s.%s: %s", fr.fn.Name(), b.Comment, c.s)
 			}
 			for bi, cond := range conds {
 				if cond == "false" {
